@@ -397,10 +397,13 @@ func (m *Monitors) static(s *Snap, esc, dep *big.Int) {
 		}
 	}
 	for p, o := range s.Owners {
-		if old, ok := m.provOwner[p]; ok && old != o {
+		old, ok := m.provOwner[p]
+		if ok && old != o {
 			m.fail("C15", "provider %d changed owner", r.a.atomOfAddr([]byte(p)))
 		}
-		m.provOwner[p] = o
+		if !ok {
+			m.provOwner[p] = o // the owner as first registered: a provider has one owner for life
+		}
 	}
 	for name, d := range s.Defs {
 		ser := string(r.w.app.AppCodec().MustMarshalBinaryBare(&d))
